@@ -20,6 +20,12 @@ def tag(i, j):
     return i * 1000 + j
 
 
+def cell_text(sc, i, j, fmt):
+    if j == 0 and sc.get("text_index"):
+        return "T%05d" % tag(i, 0)
+    return fmt % tag(i, j)
+
+
 def curve_name(sc, j):
     names = sc.get("names")
     return names[j] if names else "K%d" % j
@@ -28,7 +34,7 @@ def curve_name(sc, j):
 def build_text(sc):
     d, c, r = sc["declared"], sc["cols"], sc["rows"]
     vers = sc.get("vers", 2.0)
-    lines = docmodel.version_section(vers, "YES" if sc["wrap"] else "NO", "COMMA" if sc.get("comma") else None)
+    lines = docmodel.version_section(vers, "YES" if sc["wrap"] else "NO", (sc.get("dlm_spelling") or "COMMA") if sc.get("comma") else None)
     if sc.get("no_wrap_item"):
         lines = [ln for ln in lines if not ln.startswith("WRAP")]       # file does not declare WRAP at all
     lines += docmodel.well_section(0.0, float(tag(r - 1, 0)), 1000.0, -999.25, "M", (), version=vers)
@@ -67,7 +73,7 @@ def build_text(sc):
             if sc.get("comma"):
                 lines.append(sc.get("lead", " ") + sc["comma"].join("" if (i, j) in empty else fmt % tag(i, j) for j in range(c)))
             else:
-                lines.append(sc.get("lead", " ") + sc.get("sep", " ").join(fmt % tag(i, j) for j in range(c)))
+                lines.append(sc.get("lead", " ") + sc.get("sep", " ").join(cell_text(sc, i, j, fmt) for j in range(c)))
         lines += noise.get(r, [])
     for t in sc.get("tail", []):
         lines += t
@@ -125,7 +131,10 @@ class C07(Prop):
             sc["comma"] = g.choice([",", ", ", " , "])
             sc.pop("sep", None)
             sc.pop("noise", None)
-            if sc["cols"] >= 3 and g.random() < 0.5:
+            if g.random() < 0.25:
+                sc["dlm_spelling"] = g.choice(["Comma", "comma", "COMMA ", "Comma delimited"])   # lasio may refuse such a file
+                sc["comma"] = ","
+            elif sc["cols"] >= 3 and g.random() < 0.5:
                 jj = g.randrange(1, sc["cols"])
                 sc["empty"] = [[i, jj if g.random() < 0.7 else g.randrange(1, sc["cols"])] for i in range(sc["rows"])]
         if sc["declared"] >= 3 and g.random() < 0.1:
@@ -136,6 +145,8 @@ class C07(Prop):
             sc["names"] = ["DEPT"] + tail
         sc["case"] = g.choice(["upper", "upper", "lower", "preserve"])
         sc["nkw"] = neutral_read_kw(g)
+        if not wrap and not sc.get("ragged") and not sc.get("comma") and g.random() < 0.1:
+            sc["text_index"] = True          # the index column holds text (time stamps); forces the reference engine
         sc["cellfmt"] = g.choice(["%d", "%d", "%.1f", "%.3f"])
         sc["vers"] = g.choice([1.2, 2.0])
         sc["params"] = g.random() < 0.3
@@ -157,7 +168,7 @@ class C07(Prop):
             except Exception as e:
                 res.count("read-raised:" + type(e).__name__)
                 res.skipped = "read raised %s (the statement speaks of successful reads)" % type(e).__name__
-                if not sc.get("ragged"):
+                if not sc.get("ragged") and not sc.get("dlm_spelling"):
                     # a rectangular, conformant document must be readable
                     res.skipped = None
                     res.violate("C07.unreadable", "rectangular document (d=%d c=%d r=%d wrap=%s) could not be read: %s: %s" % (
@@ -216,6 +227,12 @@ class C07(Prop):
                             j, i, cell, "an empty cell" if (i, j) in empty else tag(i, j), d, c, r, sc["engine"]))
                         return res
                 continue
+            if j == 0 and sc.get("text_index") and c > 0:
+                want_t = ["T%05d" % tag(i, 0) for i in range(r)]
+                if [str(x) for x in a.tolist()] != want_t:
+                    res.violate("C07.binding", "text index column came back as %r, expected %r" % (a.tolist()[:4], want_t[:4]))
+                    return res
+                continue
             if j < c:
                 want = np.array([tag(i, j) for i in range(r)], dtype=float)
                 if a.dtype.kind != "f" or not np.array_equal(a, want):
@@ -252,7 +269,7 @@ class C07(Prop):
             d = copy.deepcopy(sc)
             d["policy"] = Policy().to_json()
             yield d
-        for k, v in (("names", None), ("empty", []), ("case", "upper"), ("no_wrap_item", False), ("params", False), ("title", "~ASCII"), ("final_newline", True), ("cellfmt", "%d"), ("lead", " "), ("sep", " ")):
+        for k, v in (("text_index", False), ("dlm_spelling", None), ("names", None), ("empty", []), ("case", "upper"), ("no_wrap_item", False), ("params", False), ("title", "~ASCII"), ("final_newline", True), ("cellfmt", "%d"), ("lead", " "), ("sep", " ")):
             if k in sc and sc[k] != v and sc[k]:
                 d = copy.deepcopy(sc)
                 d[k] = v
